@@ -61,7 +61,7 @@ def B(v):
     return 'TRUE' if v else 'FALSE'
 
 
-def run_mc(base, name, consts, defs, invs, view=False, **kw):
+def run_mc(base, name, consts, defs, invs, view=False, spec='Spec', **kw):
     """Write MC_c13_<name>.tla/.cfg (constants that are not plain cfg values
     are defined in the MC module), run TLC, remove them."""
     mod = f'MC_c13_{name}'
@@ -76,7 +76,7 @@ def run_mc(base, name, consts, defs, invs, view=False, **kw):
             lines.append(f'c_{k} == {v}')
             cfg.append(f'  {k} <- c_{k}')
     lines.append('====')
-    cfg += ['SPECIFICATION Spec', 'CHECK_DEADLOCK FALSE']
+    cfg += [f'SPECIFICATION {spec}', 'CHECK_DEADLOCK FALSE']
     if view:
         cfg.append('VIEW view')
     cfg += [f'INVARIANT {i}' for i in invs]
@@ -125,10 +125,10 @@ def printed_blocks(res, tag):
 
 
 def fs_consts(maxreq, maxnodes, ops, rule='asis', rewrite='asis', emit=False,
-              bias='all'):
+              bias='all', randk=1):
     return dict(Names=SS(['a', 'b']), Depth=2, Ops=SS(ops), MaxNodes=maxnodes,
                 MaxReq=maxreq, MapRule=f'"{rule}"', Rewrite=f'"{rewrite}"',
-                Fuel=8, EmitEsc=B(emit), Bias=f'"{bias}"')
+                Fuel=8, EmitEsc=B(emit), Bias=f'"{bias}"', RandK=randk)
 
 
 def ent(name, typ, t='', sub=()):
@@ -196,8 +196,8 @@ def main(ctx):
     rel_t = ['..', 'a', '../..', 'b/../..', '.']
     abs_t = ['/', '/a', '/a/b', '/..', '//a']
     if quick:
-        full = (4, 3, rp[:6], rel_t[:4] + ['/'])
-        absr = (4, 3, rp, abs_t)
+        full = (4, 3, ['a', 'b', 'a/b', 'a/a', '/'], ['..', 'b/../..', '/', '.'])
+        absr = (3, 3, rp[:6], abs_t)
     else:
         full = (5, 4, rp, rel_t + ['/', '/a', '../a'])
         absr = (6, 4, rp + ['a/../b', '//a'], abs_t + ['/b'])
@@ -227,16 +227,17 @@ def main(ctx):
             'PathConfineFS', f'fs_w_{wit}', fs_consts(3, 3, ALLOPS, rule='strip'),
             fsdefs(rp[:4], ['a', '/'], 'TreesAll'), [wit], view=True,
             workers=2))
-    nsim = 25 if quick else 400
+    nsim = 150 if quick else 1500
     for bias in ('all', 'ok'):
         def sim(bias=bias):
             d = tlc.workdir(f'c13_sim_{bias}_out')
             return run_mc(
                 'PathConfineFS', f'fs_sim_{bias}',
-                fs_consts(8, 4, ALLOPS, bias=bias),
-                fsdefs(rp + ['//a/../b'],
-                       rel_t + ['/', '/a', 'a/b'], 'TreesAll'),
-                [], workers=2, sim_dir=d,
+                fs_consts(8, 4, ALLOPS, bias=bias,
+                          randk=3 if bias == 'all' else 16),
+                fsdefs(rp + ['a/../b', '//a/../b'],
+                       rel_t + ['/', '/a', '../a', 'a/b'], 'TreesAll'),
+                [], workers=2, sim_dir=d, spec='SimSpec',
                 simulate=f'file={d}/tr,num={nsim}', depth=9,
                 seed=ctx.seed + 11)
         jobs[f'fs simulate {bias}'] = sim
@@ -692,13 +693,15 @@ def replay_dl(ctx, pc, results, quick):
     cache = {}
     n = 0
     try:
-        for name, mode, cap in (('scp sink (exhaustive + table)', 'scp', 1500),
-                                ('get as written (table)', 'get', 1000)):
+        for name, mode, cap in (('scp sink (exhaustive + table)', 'scp', 700),
+                                ('get as written (table)', 'get', 700)):
             cases = [c[0] for c in printed_blocks(results[name], 'CASE')]
             ctx.require(len(cases) > 50, f'{name}: no case table')
             cases.sort(key=lambda c: json.dumps(c, sort_keys=True))
             if quick and len(cases) > cap:
-                cases = cases[::len(cases) // cap + 1]
+                short = [c for c in cases if len(c[2]) <= 1]
+                rest = [c for c in cases if len(c[2]) > 1]
+                cases = short + rest[::len(rest) // cap + 1]
             for _mode, cfg, hist, _state, created, tree in cases:
                 created = [tuple(l) for l in created['$set']]
                 mesc = any(l[:2] != ('T', 'D') for l in created)
